@@ -739,6 +739,7 @@ func ruleFormatHandlerErrors(c *Ctx) {
 		return
 	}
 	okFlow := false
+	filtered := ""
 	ci := buildConc(c)
 	reach := Reach(ci.g, []*ssa.Function{fmtH}, true)
 	isParseErrs := func(sl map[ssa.Value]bool) bool {
@@ -779,8 +780,27 @@ func ruleFormatHandlerErrors(c *Ctx) {
 					for _, b2 := range g.Blocks {
 						for _, i2 := range b2.Instrs {
 							if mu, ok := i2.(*ssa.MapUpdate); ok && sl[mu.Map] {
-								if isParseErrs(sliceUp(ci, mu.Key, g)) {
+								ks := sliceUp(ci, mu.Key, g)
+								if isParseErrs(ks) {
 									okFlow = true
+								}
+								// ... from the parser's own list, not from a copy that was filtered, capped or de-duplicated
+								// on the way (a re-slice of, or an append that builds, a list of parse errors)
+								for v := range ks {
+									isErrList := func(t types.Type) bool {
+										sl, ok := t.Underlying().(*types.Slice)
+										return ok && typeHasSuffix(sl.Elem(), "parser.ParseError")
+									}
+									switch x := v.(type) {
+									case *ssa.Slice:
+										if isErrList(x.Type()) {
+											filtered = c.P.pos(x.Pos())
+										}
+									case *ssa.Call:
+										if bi, ok := x.Call.Value.(*ssa.Builtin); ok && bi.Name() == "append" && isErrList(x.Type()) && !inParserPkg(x.Parent()) {
+											filtered = c.P.pos(x.Pos())
+										}
+									}
 								}
 							}
 						}
@@ -789,6 +809,9 @@ func ruleFormatHandlerErrors(c *Ctx) {
 			}
 		}
 	}
+	c.check(filtered == "", "C04-ERRS", funcName(fmtH), "every parse error reaches the formatter", fmtH.Pos(),
+		"the error lines are taken from the parser's own error list",
+		"the lines the formatter must not rewrite are taken from a filtered copy of the parser's errors (built at "+filtered+"): an error that the filter drops (a 'cascade', a duplicate message) leaves its line unprotected, and the formatter rebuilds it from the tree and deletes what the parser did not understand")
 	c.check(okFlow, "C04-ERRS", funcName(fmtH), "parse errors reach the formatter", fmtH.Pos(),
 		"the options' set of error lines is filled from the errors returned by parser.Parse for the formatted text",
 		"the formatting handler discards the parser's errors: the formatter cannot know which lines it must not rewrite")
@@ -876,4 +899,11 @@ func inCycle(b *ssa.BasicBlock) bool {
 		w = append(w, x.Succs...)
 	}
 	return false
+}
+
+func inParserPkg(f *ssa.Function) bool {
+	for f != nil && f.Parent() != nil {
+		f = f.Parent()
+	}
+	return f != nil && f.Pkg != nil && strings.HasSuffix(f.Pkg.Pkg.Path(), "/internal/parser")
 }
